@@ -247,30 +247,30 @@ Definition maybe_cow (c : cfg) (v : ver) (n : name) : ver * node :=
     else nd in
   (mkVer (al_update n nd' (v_nodes v1)) (v_delegs v1) (v_changed v1), nd').
 
-(* the `while True` loop of update_glue_flag over the elements after the cursor *)
+(* the `while True` loop of update_glue_flag over the elements after the cursor; returns the
+   delegations, the changed set and the `updates` list (in loop order) *)
 Fixpoint ugf_loop (n : name) (is_glue : bool) (after : nodes_t) (exposed : option name)
-         (d : delegs_t) (ch : list name) (updates : nodes_t) : delegs_t * list name * nodes_t :=
+         (d : delegs_t) (ch : list name) : delegs_t * list name * nodes_t :=
   match after with
-  | [] => (d, ch, updates)
+  | [] => (d, ch, [])
   | (ename, nd) :: r =>
-      if negb (is_subdomain ename n) then (d, ch, updates)
+      if negb (is_subdomain ename n) then (d, ch, [])
       else
         let ch' := changed_add ename ch in
-        if is_glue then
-          ugf_loop n is_glue r exposed (al_discard ename d) ch' (updates ++ [(ename, mkNode fGLUE (nrds nd))])
-        else if match exposed with Some x => is_subdomain ename x | None => false end then
-          ugf_loop n is_glue r exposed d ch' (updates ++ [(ename, mkNode fGLUE (nrds nd))])
-        else if has_ns nd then
-          ugf_loop n is_glue r (Some ename) (al_set ename tt d) ch'
-                   (updates ++ [(ename, mkNode fDELEGATION (nrds nd))])
-        else
-          ugf_loop n is_glue r exposed d ch' (updates ++ [(ename, mkNode 0 (nrds nd))])
+        let '(fl, exposed', d1) :=
+          if is_glue then (fGLUE, exposed, al_discard ename d)
+          else if match exposed with Some x => is_subdomain ename x | None => false end
+               then (fGLUE, exposed, d)
+          else if has_ns nd then (fDELEGATION, Some ename, al_set ename tt d)
+          else (0, exposed, d) in
+        let '(d2, ch2, ups) := ugf_loop n is_glue r exposed' d1 ch' in
+        (d2, ch2, (ename, mkNode fl (nrds nd)) :: ups)
   end.
 
 (* WritableVersion.update_glue_flag *)
 Definition update_glue_flag (v : ver) (n : name) (is_glue : bool) : ver :=
   let '(_, after) := c_seek (v_nodes v) n in
-  let '(d, ch, updates) := ugf_loop n is_glue after None (v_delegs v) (v_changed v) [] in
+  let '(d, ch, updates) := ugf_loop n is_glue after None (v_delegs v) (v_changed v) in
   mkVer (fold_left (fun nodes u => al_set (fst u) (snd u) nodes) updates (v_nodes v)) d ch.
 
 (* WritableVersion.delete_node (n validated) *)
